@@ -319,6 +319,9 @@ func compareNodes(a, b *node, path string, preserve bool) (kind, what string) {
 				}
 			default:
 				if collapse(x.text) != collapse(y.text) {
+					if strings.Join(strings.Fields(x.text), "") == strings.Join(strings.Fields(y.text), "") && len(strings.Fields(y.text)) < len(strings.Fields(x.text)) {
+						return "text-words-joined", fmt.Sprintf("%s<%s>: text %q became %q (white space between two words removed)", path, a.name, x.text, y.text)
+					}
 					return "text", fmt.Sprintf("%s<%s>: text %q became %q", path, a.name, x.text, y.text)
 				}
 			}
@@ -591,3 +594,42 @@ func runDefaultAttrs(c *core.Check) {
 }
 
 var _ = sort.Strings
+
+// runCharData: character data of a <text> element built from short pieces, so that the sequence `]]>` (and the
+// end of a word) is assembled across token boundaries in every way: a `]` or `>` may reach the output as a write of
+// its own (after a dropped comment, out of a CDATA section that is dissolved, out of a character reference) or as
+// part of a longer write. Every sequence of <=4 (thorough <=5) pieces; the oracle is the one of every other
+// document (well-formed output, same character data, same structure).
+var charDataPieces = []string{"]", "]]", "&gt;", ">", "a", "<!--c-->", "<![CDATA[]]]>", "<![CDATA[>]]>", "<![CDATA[]]]]><![CDATA[>]]>", "<![CDATA[a]]]>", "&#93;", " "}
+
+func runCharData(c *core.Check) {
+	n := c.Pick(4, 5)
+	seq := core.Sequences{K: len(charDataPieces), MaxLen: n}
+	fam := "character-data"
+	total := seq.Count()
+	c.Family(fam).Bound = fmt.Sprintf("<svg><text>…</text></svg> and <svg><text>…<tspan>b</tspan></text></svg> with all sequences of <=%d of %d pieces (], ]], &gt;, >, a letter, a comment, four CDATA sections ending in ] or starting with >, &#93;, a space); standalone and inline", n, len(charDataPieces))
+	c.ParallelRange(fam, total, func(i uint64) {
+		var b strings.Builder
+		for _, k := range seq.At(i, nil) {
+			b.WriteString(charDataPieces[k])
+		}
+		for v, in := range []string{"<svg><text>" + b.String() + "</text></svg>", "<svg><text>" + b.String() + "<tspan>b</tspan></text></svg>"} {
+			for _, cfg := range []string{"standalone", "inline"} {
+				kind, what, out := CheckDoc(in, cfg)
+				if kind == "skip" {
+					continue
+				}
+				c.Count(1)
+				nt := uint64(0)
+				if out != in {
+					nt = 1
+					c.Nontrivial("doc", cfg, in)
+				}
+				c.AddFamily(fam, 1, nt)
+				if kind != "" {
+					c.Fail(core.Failure{Family: fam, Input: in, Config: cfg, Kind: kind, What: what, Order: i*2 + uint64(v)})
+				}
+			}
+		}
+	})
+}
